@@ -319,3 +319,17 @@ func (w *World) Drain() {
 		return true
 	})
 }
+
+// RecvLoopsIdle reports whether every tunnel-client receive loop is finished or waiting for
+// the next frame (it must only be called from guards, i.e. at quiescent points).
+func (w *World) RecvLoopsIdle() bool {
+	for _, th := range w.S.Threads {
+		if !strings.Contains(th.Name, ":newTunnelChannel#") || th.Done {
+			continue
+		}
+		if !(th.Parked && th.Kind == "carrier" && strings.Contains(th.Site, ".recv:") && th.Guard != nil && !th.Guard()) {
+			return false
+		}
+	}
+	return true
+}
